@@ -178,6 +178,25 @@ def run(ctx):
                 r.check(bool(common), "hash/%s-%s/shared-tag" % (a, b), where(hash_b), "%s and %s can be equal and share tag %s" % (a, b, sorted(common)),
                         "%s and %s can be equal but never write the same tag (%s vs %s): equal values hash differently" % (a, b, sorted(tags[a]), sorted(tags[b])))
                 r.check(bool(forms[a] & forms[b]), "hash/%s-%s/shared-form" % (a, b), where(hash_b), "both use %s" % sorted(forms[a] & forms[b]), "%s hashes with %s, %s with %s" % (a, sorted(forms[a]), b, sorted(forms[b])))
+        # kinds that choose between two normal forms (small integer / big integer) must draw the line at the same place: the
+        # narrowing conversion that decides is the one matching the width that is written (write_i128 <-> to_i128), for every such kind
+        import re as _re
+        thr = collections.defaultdict(set)
+        for c in hash_b.calls:
+            if _re.match(r"^to_[iu](8|16|32|64|128|size)$", c.name or ""):
+                k = [l for d, l, _ in dom_guards(hash_b, c.block) if d == "disc(self)"]
+                if k:
+                    thr[k[0]].add(c.name)
+        writers = {k: {f for f in forms[k] if f.startswith("write_i") or f.startswith("write_u6") or f.startswith("write_u1")} for k in kinds}
+        multi = [k for k in kinds if len(tags.get(k, ())) > 1]
+        for k in multi:
+            want = {"to_" + w[len("write_"):] for w in writers[k] if w != "write_u8"}
+            r.check(thr[k] == want and len(want) == 1, "hash/%s/threshold=width-written" % k, where(hash_b), "%s chooses its normal form with %s and writes %s" % (k, sorted(thr[k]), sorted(writers[k])),
+                    "%s decides between its normal forms with %s but the small form is written with %s: integers between the two ranges are hashed in the big form while equal values of other kinds are hashed in the small form (equal values, different hashes)" % (k, sorted(thr[k]), sorted(writers[k])))
+        for a in multi:
+            for b in multi:
+                if a < b:
+                    r.check(thr[a] == thr[b], "hash/%s-%s/same-threshold" % (a, b), where(hash_b), "both draw the small/big line with %s" % sorted(thr[a]), "%s uses %s, %s uses %s: a value between the two thresholds hashes differently in the two kinds although they are equal" % (a, sorted(thr[a]), b, sorted(thr[b])))
         fl = [c for c in hash_b.calls if c.name == "to_bits"]
         nan = [c for c in hash_b.calls if c.name == "is_nan"]
         r.check(bool(nan), "hash/Float64Value/NaN-normalised", where(hash_b), "NaN (all NaNs are eq) is hashed as one value")
